@@ -95,7 +95,8 @@ Record pstore := mkPS {
   ps_keys : list (Z * N);
   ps_meta : list (Z * Z * Z);          (* peer, key, value *)
   ps_maxprotos : Z;                    (* memoryProtoBook.maxProtos *)
-  ps_pcap : Z }.                       (* memoryAddrBook.maxAddrsPerPeer (0 = no cap) *)
+  ps_pcap : Z;                         (* memoryAddrBook.maxAddrsPerPeer (0 = no cap) *)
+  ps_maxu : Z }.                       (* memoryAddrBook.maxUnconnectedAddrs *)
 
 Fixpoint alist_get {V} (p : Z) (l : list (Z * V)) : option V :=
   match l with [] => None | (q, v) :: r => if q =? p then Some v else alist_get p r end.
@@ -156,6 +157,36 @@ Definition c_add (cap : Z) (s : abook) (p : Z) (addrs : list raw) (ttl : Z) : ab
   if ttl <=? 0 then s
   else mk_norm (a_now s) (cadd_list cap p ttl (a_now s) (clean_addrs addrs) (a_ents s)) (a_recs s).
 
+(* ---- the book-wide limit on unconnected addresses (maxUnconnectedAddrs) -----------
+   NumUnconnectedAddrs(): every entry of the book below the connected class.
+   AddAddrs with a TTL below the connected class is dropped as a whole when the
+   book is at the limit.  UpdateAddrs moving entries out of the connected class
+   moves them while there is room and deletes the rest (which ones get the room
+   depends on the implementation's map iteration order; the model takes them in
+   list order — identify deletes all that were moved at the end of the same
+   step unless its AddAddrs kept them, and that AddAddrs is dropped whenever some
+   entry found no room, so what is observed after the step does not depend on
+   the choice). *)
+Definition uall (l : list aent) : Z := Z.of_nat (length (filter (fun e => is_unconn (ettl e)) l)).
+
+Definition gc_add (cap maxu : Z) (s : abook) (p : Z) (addrs : list raw) (ttl : Z) : abook :=
+  if is_unconn ttl && (maxu <=? uall (a_ents s)) then s else c_add cap s p addrs ttl.
+
+Fixpoint gupd_list (maxu p old new now u : Z) (l : list aent) : list aent :=
+  match l with
+  | [] => []
+  | e :: r =>
+      if (ep e =? p) && (ettl e =? old)
+      then if maxu <=? u then gupd_list maxu p old new now u r
+           else mkE (ep e) (ea e) new (now + new) :: gupd_list maxu p old new now (u + 1) r
+      else e :: gupd_list maxu p old new now u r
+  end.
+
+Definition g_update (maxu : Z) (s : abook) (p old new : Z) : abook :=
+  if negb (is_unconn old) && is_unconn new && negb (new =? 0)
+  then mk_norm (a_now s) (gupd_list maxu p old new (a_now s) (uall (a_ents s)) (a_ents s)) (a_recs s)
+  else a_update s p old new.
+
 Section Ext.
 Variable verify : N -> term -> term -> bool.
 Variable id_of : N -> Z.
@@ -168,21 +199,21 @@ Definition apply_op (s : pstore) (o : psop) : pstore :=
   match o with
   | PSetProtocols p l =>
       if ps_maxprotos s <? Z.of_nat (length l) then s
-      else mkPS (ps_book s) (alist_set p l (ps_protos s)) (ps_keys s) (ps_meta s) (ps_maxprotos s) (ps_pcap s)
+      else mkPS (ps_book s) (alist_set p l (ps_protos s)) (ps_keys s) (ps_meta s) (ps_maxprotos s) (ps_pcap s) (ps_maxu s)
   | PUpdateAddrs p old new =>
-      mkPS (a_update (ps_book s) p old new) (ps_protos s) (ps_keys s) (ps_meta s) (ps_maxprotos s) (ps_pcap s)
+      mkPS (g_update (ps_maxu s) (ps_book s) p old new) (ps_protos s) (ps_keys s) (ps_meta s) (ps_maxprotos s) (ps_pcap s) (ps_maxu s)
   | PAddAddrs p l ttl =>
-      mkPS (c_add (ps_pcap s) (ps_book s) p (map (to_raw p) (filter has_transport l)) ttl)
-           (ps_protos s) (ps_keys s) (ps_meta s) (ps_maxprotos s) (ps_pcap s)
-  | PPut p k v => mkPS (ps_book s) (ps_protos s) (ps_keys s) (meta_set p k v (ps_meta s)) (ps_maxprotos s) (ps_pcap s)
+      mkPS (gc_add (ps_pcap s) (ps_maxu s) (ps_book s) p (map (to_raw p) (filter has_transport l)) ttl)
+           (ps_protos s) (ps_keys s) (ps_meta s) (ps_maxprotos s) (ps_pcap s) (ps_maxu s)
+  | PPut p k v => mkPS (ps_book s) (ps_protos s) (ps_keys s) (meta_set p k v (ps_meta s)) (ps_maxprotos s) (ps_pcap s) (ps_maxu s)
   | PPubKey p =>
       match alist_get p (ps_keys s), inline_key p with
-      | None, Some k => mkPS (ps_book s) (ps_protos s) (alist_set p k (ps_keys s)) (ps_meta s) (ps_maxprotos s) (ps_pcap s)
+      | None, Some k => mkPS (ps_book s) (ps_protos s) (alist_set p k (ps_keys s)) (ps_meta s) (ps_maxprotos s) (ps_pcap s) (ps_maxu s)
       | _, _ => s
       end
   | PAddPubKey p k =>
       if id_of k =? p
-      then mkPS (ps_book s) (ps_protos s) (alist_set p k (ps_keys s)) (ps_meta s) (ps_maxprotos s) (ps_pcap s)
+      then mkPS (ps_book s) (ps_protos s) (alist_set p k (ps_keys s)) (ps_meta s) (ps_maxprotos s) (ps_pcap s) (ps_maxu s)
       else s
   end.
 
@@ -314,6 +345,7 @@ Variable verify : N -> term -> term -> bool.
 Variable id_of : N -> Z.
 Variable inline_key : Z -> option N.
 Variable conns : list (Z * conn).       (* the connections of the universe *)
+Variable timeout : Z.                   (* the configured identify timeout, ns *)
 
 Definition conn_of (c : Z) : option conn := alist_get c conns.
 Definition peer_of (c : Z) : Z := match conn_of c with Some x => c_peer x | None => 0 end.
@@ -328,6 +360,24 @@ Definition with_ps (s : sys) (ps : pstore) : sys :=
 Definition close_chan (ch : Z) (l : list (Z * bool)) : list (Z * bool) :=
   map (fun x => if fst x =? ch then (fst x, true) else x) l.
 
+(* a new wait channel for c and its identify exchange.  identifyConn bounds the
+   exchange by context.WithTimeout(timeout): with a zero timeout the context has
+   expired before the stream is opened, the exchange fails on the spot and the
+   channel is closed at once *)
+Definition spawn (s : sys) (c : Z) : sys * Z :=
+  if timeout =? 0
+  then (mkSys (s_ps s) (s_net s) (s_pend s) (s_closed s) (alist_set c (s_next s) (s_entries s))
+              ((s_next s, true) :: s_chans s) (s_tasks s) (s_next s + 1), s_next s)
+  else (mkSys (s_ps s) (s_net s) (s_pend s) (s_closed s) (alist_set c (s_next s) (s_entries s))
+              ((s_next s, false) :: s_chans s) ((s_next s, c) :: s_tasks s) (s_next s + 1), s_next s).
+
+(* does IdentifyWait(c) start an exchange *)
+Definition spawns (s : sys) (c : Z) : bool :=
+  match alist_get c (s_entries s) with
+  | None => negb (zin c (s_closed s))
+  | Some ch => ch =? 0
+  end.
+
 (* IdentifyWait *)
 Definition identify_wait (s : sys) (c : Z) : sys * Z :=
   match alist_get c (s_entries s) with
@@ -336,19 +386,17 @@ Definition identify_wait (s : sys) (c : Z) : sys * Z :=
       then (* a fresh, already closed channel; nothing is tracked *)
         (mkSys (s_ps s) (s_net s) (s_pend s) (s_closed s) (s_entries s)
                ((s_next s, true) :: s_chans s) (s_tasks s) (s_next s + 1), s_next s)
-      else
-        (mkSys (s_ps s) (s_net s) (s_pend s) (s_closed s) (alist_set c (s_next s) (s_entries s))
-               ((s_next s, false) :: s_chans s) ((s_next s, c) :: s_tasks s) (s_next s + 1), s_next s)
-  | Some ch =>
-      if ch =? 0
-      then (mkSys (s_ps s) (s_net s) (s_pend s) (s_closed s) (alist_set c (s_next s) (s_entries s))
-                  ((s_next s, false) :: s_chans s) ((s_next s, c) :: s_tasks s) (s_next s + 1), s_next s)
-      else (s, ch)
+      else spawn s c
+  | Some ch => if ch =? 0 then spawn s c else (s, ch)
   end.
+
+(* the Failed event of an exchange that a zero timeout kills at once *)
+Definition wait_events (s : sys) (c : Z) : list (Z * Z) :=
+  if spawns s c && (timeout =? 0) then [(2, peer_of c)] else [].
 
 (* handleIdentifyResponse on connection c *)
 Definition handle_response (s : sys) (c : Z) (cs : list chunk) (push : bool) : option (sys * list psop * list event) :=
-  match conn_of c, read_all cs with
+  match conn_of c, (if push && (timeout =? 0) then None else read_all cs) with
   | Some cn, Some m =>
       let calls := consume verify id_of inline_key (s_ps s) m cn (connected (s_net s) (c_peer cn)) in
       Some (with_ps s (apply_ops id_of inline_key (s_ps s) calls), calls,
@@ -359,7 +407,7 @@ Definition handle_response (s : sys) (c : Z) (cs : list chunk) (push : bool) : o
 
 Definition advance_book (s : sys) (d : Z) : sys :=
   with_ps s (mkPS (a_advance (ps_book (s_ps s)) d) (ps_protos (s_ps s)) (ps_keys (s_ps s))
-                  (ps_meta (s_ps s)) (ps_maxprotos (s_ps s)) (ps_pcap (s_ps s))).
+                  (ps_meta (s_ps s)) (ps_maxprotos (s_ps s)) (ps_pcap (s_ps s)) (ps_maxu (s_ps s))).
 
 Definition finish_task (s : sys) (ch : Z) : sys :=
   mkSys (s_ps s) (s_net s) (s_pend s) (s_closed s) (s_entries s)
@@ -381,7 +429,7 @@ Definition step (s : sys) (o : op) : sys * sobs :=
                 | None => mkSys (s_ps s) (s_net s) (s_pend s) (s_closed s) (alist_set c 0 (s_entries s))
                                 (s_chans s) (s_tasks s) (s_next s)
                 | Some _ => s end in
-      (fst (identify_wait s1 c), mkObs [] [] 0)
+      (fst (identify_wait s1 c), mkObs [] (wait_events s1 c) 0)
   | ODisconnected c order =>
       let s1 := mkSys (s_ps s) (s_net s) (zremove c (s_pend s)) (s_closed s)
                       (filter (fun x => negb (fst x =? c)) (s_entries s)) (s_chans s) (s_tasks s) (s_next s) in
@@ -391,7 +439,7 @@ Definition step (s : sys) (o : op) : sys * sobs :=
           (with_ps s1 (apply_ops id_of inline_key (s_ps s) calls), mkObs calls [] 0)
       | None => (s1, mkObs [] [] 0)
       end
-  | OWait c => let '(s', ch) := identify_wait s c in (s', mkObs [] [] ch)
+  | OWait c => let '(s', ch) := identify_wait s c in (s', mkObs [] (wait_events s c) ch)
   | OFinish ch c out =>
       if negb (match alist_get ch (s_tasks s) with Some c' => c' =? c | None => false end)
       then (s, mkObs [] [] 0)
